@@ -251,7 +251,7 @@ PROPS = {
                     "the set-refinement theorems are generic in (hash, equivalence) and instantiated for string members; other member types rely on the hash-coherence hypothesis, which is refuted for numbers (KF-C03-1)"],
     },
     "C02": {
-        "n_quick": 220, "n_thorough": 12000,
+        "n_quick": 480, "n_thorough": 12000,
         "check_fn": "kops_check",
         "rule": "number pairs from a pool (singletons, int64/uint64 limits, float64-derived, 512-bit parsed, odd precisions, fresh infinities; "
                 "thorough: full pool cross product) x 11 binary + 2 unary ops; booleans exhaustively; collections of 11 fixed + generated types x keys in and "
